@@ -35,7 +35,7 @@ ANCHORS = ['openpgp:SystemGPGEnvironment.verify_file',
            'manifest:ManifestFile.load', 'cli:VerifyCommand.__call__']
 REQUIRED = ['openpgp:SystemGPGEnvironment.verify_file', 'fake:accepted',
             'fake:rejected', 'keys:accepted', 'keys:rejected', 'mut:rejected',
-            'iso:runs', 'spawn_audit_events', 'cli:runs']
+            'iso:runs', 'spawn_audit_events', 'cli:runs', 'fake:abnormal-backend-end']
 ASSUMPTIONS = ['GnuPG 2.2 status vocabulary; key refresh is exercised only against a '
                'key server on localhost (keyserver mode, no WKD), CLI runs use -R; the '
                'PGPy backend is not installed',
@@ -125,14 +125,21 @@ class FakePopen:
         FakePopen.spawned += 1
         self.argv = argv
         self.rc, self.out, self.err = FakePopen.script
+        self.returncode = None
+        if self.rc == 'ENOENT':
+            # the OpenPGP program is not installed
+            raise FileNotFoundError(2, 'No such file or directory', argv[0])
 
     def communicate(self, data=None):
+        self.returncode = self.rc       # (negative: terminated by that signal)
         return self.out, self.err
 
     def wait(self, timeout=None):
+        self.returncode = self.rc
         return self.rc
 
     def poll(self):
+        self.returncode = self.rc
         return self.rc
 
 
@@ -176,7 +183,9 @@ def predicate(seq, rc):
               and sum(1 for x in seq if x in TRUSTS) <= 1)
     must = bool(nec and single)
     exc = None
-    if rc != 0:
+    if rc == 'ENOENT':
+        exc = {'OpenPGPNoImplementation'}
+    elif rc != 0:
         # non-zero exit: the plain verification failure, or the more specific
         # failure if the report also contains the corresponding line
         exc = {'OpenPGPVerificationFailure'}
@@ -244,6 +253,12 @@ def run_fake_seq(ctx, seq, rc, go):
                           'signed although verification failed', case)
         return
     ctx.count('fake:accepted')
+    if rc == 'ENOENT':
+        ctx.violation('accepts-unacceptable:backend-missing', 'load with verification '
+                      'returned although the OpenPGP program could not be started '
+                      '(signed flag %r, %d entries)' % (m.openpgp_signed,
+                                                        len(m.entries)), case)
+        return
     if FakePopen.spawned == before:
         ctx.violation('accepted-without-backend', 'signed Manifest accepted without '
                       'the OpenPGP backend being run', case)
@@ -292,6 +307,11 @@ def run_fake(u, ctx):
         for seq in seqs:
             for rc in (0, 1, 2):
                 run_fake_seq(ctx, seq, rc, go)
+            if k % 5 == 0:
+                # killed by a signal after the report was printed; not installed
+                for rc in (-9, -11, -13, 'ENOENT'):
+                    run_fake_seq(ctx, seq, rc, go)
+                    ctx.count('fake:abnormal-backend-end')
             k += 1
             if k % 3001 == 5:
                 ctx.sample({'kind': 'fake', 'seq': list(seq), 'rc': 0}, 'fake')
